@@ -50,6 +50,12 @@ results = {}
 if confirmed:
     assert not sh('git -C /repo status --short').stdout.strip(), 'repo dirty'
     sh('git -C /repo apply %s/patch.diff || git -C /repo apply -3 %s/patch.diff' % (dst, dst))
+    # evidence files must only ever describe runs on the unchanged tree: save and restore them
+    saved_ev = {}
+    for c in checks:
+        pth = '/verif/evidence/%s.json' % c
+        if os.path.exists(pth):
+            saved_ev[pth] = open(pth).read()
     try:
         procs = {c: subprocess.Popen('cd /verif && ./check %s' % c, shell=True, stdout=subprocess.PIPE, stderr=subprocess.STDOUT, universal_newlines=True) for c in checks}
         for c, p in procs.items():
@@ -63,6 +69,8 @@ if confirmed:
                 if os.path.exists(path):
                     shutil.copy(path, os.path.join(dst, 'detected_by_%s_replay.json' % c))
     finally:
+        for pth, txt in saved_ev.items():
+            open(pth, 'w').write(txt)
         sh('git -C /repo checkout -- . && git -C /repo clean -fdq pcbasic')
         # regenerate gen files from the clean tree
         sh('cd /verif && ./check --setup > /dev/null 2>&1') if False else None
